@@ -15,8 +15,12 @@ import (
 	"runtime/debug"
 	"sort"
 	"strings"
+	"strconv"
 	"sync"
+	"sync/atomic"
+	"syscall"
 	"testing"
+	"time"
 
 	"pgregory.net/rapid"
 )
@@ -268,7 +272,7 @@ func dumpCase(test string, c interface{}, v *Violation) string {
 	return path
 }
 
-func safeCheck[C any](check func(C) Result, c C) (res Result) {
+func recoverCheck[C any](check func(C) Result, c C) (res Result) {
 	defer func() {
 		if r := recover(); r != nil {
 			st := string(debug.Stack())
@@ -280,6 +284,159 @@ func safeCheck[C any](check func(C) Result, c C) (res Result) {
 		}
 	}()
 	return check(c)
+}
+
+// ---- non-termination guard ----
+//
+// Every property speaks of what a call returns, so a call that never returns
+// breaks it; without a guard such a case would only surface as the driver's
+// wall-clock job timeout, which is (rightly) reported as inconclusive.  The
+// guard runs each case on its own goroutine and measures the CPU time the
+// process burns while the case is outstanding (getrusage, so machine load
+// and scheduling do not count).  A case that is still running after
+// caseCPUBudget CPU-seconds is reported as a violation with signature
+// "<test>:no-return" and the process exits at once: the stuck goroutine
+// cannot be stopped, so there is no shrinking.  The largest per-case wall
+// time seen is exported in the stats ("max_case_ms") so the margin between
+// legitimate cases and the budget stays visible in the evidence.
+
+// ProcCPU is the CPU time (user+system) this process has consumed so far.
+func ProcCPU() time.Duration { return procCPU() }
+
+func procCPU() time.Duration {
+	var ru syscall.Rusage
+	if err := syscall.Getrusage(syscall.RUSAGE_SELF, &ru); err != nil {
+		return 0
+	}
+	return time.Duration(ru.Utime.Nano() + ru.Stime.Nano())
+}
+
+func caseCPUBudget() time.Duration {
+	if v, err := strconv.Atoi(os.Getenv("VERIF_CASE_CPU")); err == nil && v > 0 {
+		return time.Duration(v) * time.Second
+	}
+	return 150 * time.Second
+}
+
+var maxCaseNS = map[string]int64{}
+
+func noteCaseTime(test string, d time.Duration) {
+	statsMu.Lock()
+	if int64(d) > maxCaseNS[test] {
+		maxCaseNS[test] = int64(d)
+		getStats(test).Extra["max_case_ms"] = strconv.FormatFloat(float64(d)/1e6, 'f', 2, 64)
+	}
+	statsMu.Unlock()
+}
+
+// cpuWait waits for done while the process keeps burning CPU.  It returns
+// true when done closed, false when more than budget CPU-seconds were burned
+// first.  If the process stops consuming CPU altogether (blocked, not
+// spinning: a deadlock, or simply descheduled) the polling stops and the wait
+// becomes a plain blocking receive, so that the Go runtime's own deadlock
+// detector ("all goroutines are asleep") is not masked by our timers; that
+// direction can only end in "inconclusive" (job time limit), never an alarm.
+func cpuWait(done <-chan struct{}, grace, budget time.Duration) bool {
+	tm := time.NewTimer(grace)
+	select {
+	case <-done:
+		tm.Stop()
+		return true
+	case <-tm.C:
+	}
+	cpu0 := procCPU()
+	last, idleTicks := cpu0, 0
+	tk := time.NewTicker(250 * time.Millisecond)
+	defer tk.Stop()
+	for {
+		select {
+		case <-done:
+			return true
+		case <-tk.C:
+		}
+		now := procCPU()
+		if now-cpu0 > budget {
+			return false
+		}
+		if now-last < 5*time.Millisecond {
+			idleTicks++
+		} else {
+			idleTicks = 0
+		}
+		last = now
+		if idleTicks >= 40 { // 10 s without CPU use: not a spin
+			tk.Stop()
+			<-done
+			return true
+		}
+	}
+}
+
+// guarded runs f (one case) under the non-termination guard.
+func guarded(test string, c interface{}, f func()) {
+	t0 := time.Now()
+	done := make(chan struct{})
+	go func() {
+		defer close(done)
+		f()
+	}()
+	budget := caseCPUBudget()
+	if cpuWait(done, 5*time.Second, budget) {
+		noteCaseTime(test, time.Since(t0))
+		return
+	}
+	v := &Violation{Sig: test + ":no-return", Detail: fmt.Sprintf("the case was still running after the process burned %.0f CPU-seconds on it (wall %.0fs) and was abandoned; every other case of this test finishes in well under a second", budget.Seconds(), time.Since(t0).Seconds())}
+	path := dumpCase(test, c, v)
+	if rp := os.Getenv("VERIF_REPLAY"); rp != "" {
+		path = rp
+	}
+	flush(test)
+	fmt.Printf("VERIF-VIOLATION test=%s sig=%s replay=%s detail=%s\n", test, v.Sig, path, oneLine(v.Detail))
+	os.Stdout.Sync()
+	os.Exit(1)
+}
+
+// Returns runs f on its own goroutine and reports whether it came back
+// before the process burned cpuBudget CPU-seconds waiting for it (same
+// load-independent clock as the case guard).  A panic in f is re-raised on
+// the caller's goroutine.  On false the goroutine is abandoned (it cannot be
+// stopped); the caller reports non-termination under its own signature.
+var abandoned atomic.Bool // a goroutine was left spinning: do not shrink, report and exit
+
+// exitIfAbandoned ends the process right after a violation was printed when
+// a call was abandoned in this process: every further (shrinking) attempt
+// would hang again and pile up spinning goroutines.
+func exitIfAbandoned(test string) {
+	if abandoned.Load() {
+		flush(test)
+		os.Stdout.Sync()
+		os.Exit(1)
+	}
+}
+
+func Returns(cpuBudget time.Duration, f func()) bool {
+	done := make(chan struct{})
+	var pnc interface{}
+	go func() {
+		defer func() {
+			pnc = recover()
+			close(done)
+		}()
+		f()
+	}()
+	if !cpuWait(done, 2*time.Second, cpuBudget) {
+		abandoned.Store(true)
+		return false
+	}
+	if pnc != nil {
+		panic(pnc)
+	}
+	return true
+}
+
+func safeCheck[C any](test string, check func(C) Result, c C) (res Result) {
+	guarded(test, c, func() { res = recoverCheck(check, c) })
+	return res
 }
 
 // Run drives one property.  gen draws a case using only rapid; check is a pure
@@ -303,10 +460,11 @@ func Run[C any](t *testing.T, gen func(*rapid.T) C, check func(C) Result) {
 		if err := json.Unmarshal(rf.Case, &c); err != nil {
 			t.Fatalf("VERIF-HARNESS-ERROR bad replay case: %v", err)
 		}
-		res := safeCheck(check, c)
+		res := safeCheck(test, check, c)
 		fmt.Printf("VERIF-REPLAYED test=%s\n", test)
 		if res.Viol != nil && !isKnown(res.Viol.Sig) {
 			fmt.Printf("VERIF-VIOLATION test=%s sig=%s detail=%s\n", test, res.Viol.Sig, oneLine(res.Viol.Detail))
+			exitIfAbandoned(test)
 			t.Fatalf("violation: %s: %s", res.Viol.Sig, res.Viol.Detail)
 		}
 		return
@@ -314,7 +472,7 @@ func Run[C any](t *testing.T, gen func(*rapid.T) C, check func(C) Result) {
 	t.Cleanup(func() { flush(test) })
 	rapid.Check(t, func(rt *rapid.T) {
 		c := gen(rt)
-		res := safeCheck(check, c)
+		res := safeCheck(test, check, c)
 		if res.Viol != nil {
 			if isKnown(res.Viol.Sig) {
 				statsMu.Lock()
@@ -326,6 +484,7 @@ func Run[C any](t *testing.T, gen func(*rapid.T) C, check func(C) Result) {
 		if res.Viol != nil {
 			path := dumpCase(test, c, res.Viol)
 			fmt.Printf("VERIF-VIOLATION test=%s sig=%s replay=%s detail=%s\n", test, res.Viol.Sig, path, oneLine(res.Viol.Detail))
+			exitIfAbandoned(test)
 			rt.Fatalf("violation: %s: %s", res.Viol.Sig, res.Viol.Detail)
 		}
 		record(test, c, res)
@@ -343,7 +502,7 @@ func RunList[C any](t *testing.T, cases []C, check func(C) Result) {
 	t.Cleanup(func() { flush(test) })
 	MarkExhaustive(t)
 	for _, c := range cases {
-		res := safeCheck(check, c)
+		res := safeCheck(test, check, c)
 		if res.Viol != nil && isKnown(res.Viol.Sig) {
 			statsMu.Lock()
 			getStats(test).Known[res.Viol.Sig]++
@@ -353,6 +512,7 @@ func RunList[C any](t *testing.T, cases []C, check func(C) Result) {
 		if res.Viol != nil {
 			path := dumpCase(test, c, res.Viol)
 			fmt.Printf("VERIF-VIOLATION test=%s sig=%s replay=%s detail=%s\n", test, res.Viol.Sig, path, oneLine(res.Viol.Detail))
+			exitIfAbandoned(test)
 			t.Fatalf("violation: %s: %s", res.Viol.Sig, res.Viol.Detail)
 		}
 		record(test, c, res)
@@ -427,7 +587,8 @@ func RunDiff[C any](t *testing.T, gen func(*rapid.T) C, exec func(C) (out []byte
 		if err := json.Unmarshal(rf.Case, &c); err != nil {
 			t.Fatalf("VERIF-HARNESS-ERROR bad replay case: %v", err)
 		}
-		out, _, _ := safe(c)
+		var out []byte
+		guarded(test, c, func() { out, _, _ = safe(c) })
 		fmt.Fprintf(w, "replay %x %x\n", sha256.Sum256(out), out)
 		fmt.Printf("VERIF-REPLAYED test=%s\n", test)
 		return
@@ -447,7 +608,10 @@ func RunDiff[C any](t *testing.T, gen func(*rapid.T) C, exec func(C) (out []byte
 		}
 		kh := sha256.Sum256(js)
 		key := hex.EncodeToString(kh[:10])
-		out, cls, nt := safe(c)
+		var out []byte
+		var cls []string
+		var nt bool
+		guarded(test, c, func() { out, cls, nt = safe(c) })
 		fmt.Fprintf(w, "%s %x\n", key, sha256.Sum256(out))
 		if want[key] {
 			dumpCase(test, c, &Violation{Sig: "diff:backend-mismatch", Detail: "output of this case differs between build/CPU configurations; key " + key})
@@ -472,13 +636,14 @@ func Fuzz[C any](f *testing.F, gen func(*rapid.T) C, check func(C) Result) {
 	n := 0
 	f.Fuzz(rapid.MakeFuzz(func(rt *rapid.T) {
 		c := gen(rt)
-		res := safeCheck(check, c)
+		res := safeCheck(test, check, c)
 		if res.Viol != nil && isKnown(res.Viol.Sig) {
 			res.Viol = nil
 		}
 		if res.Viol != nil {
 			path := dumpCase(test, c, res.Viol)
 			fmt.Printf("VERIF-VIOLATION test=%s sig=%s replay=%s detail=%s\n", test, res.Viol.Sig, path, oneLine(res.Viol.Detail))
+			exitIfAbandoned(test)
 			rt.Fatalf("violation: %s: %s", res.Viol.Sig, res.Viol.Detail)
 		}
 		record(test, c, res)
